@@ -1,10 +1,149 @@
 import Martian.Util
-/-! STUB — property C10 is not built yet. -/
-namespace Martian.Drv.C10
-open Martian
+import Martian.Model.H2Session
+/-! Driver for C10: validates an environment trace (+ schedule hints) against the session model and
+prints the model's prediction of the observations (`returned`, upstream closed, goroutines left).
 
-abbrev St := Unit
-def init : St := ()
-def step (s : St) (_toks : List String) : St × String := (s, "bad-op")
+The driver adds only the sockets between environment and model: per direction a FIFO of results the
+next `ReadFrame` calls will get (bytes already written by the peer), and whether writes toward a side
+fail. `settle` runs the model's canonical scheduler (`pick`) to quiescence. -/
+namespace Martian.Drv.C10
+open Martian Martian.H2Session
+
+structure St where
+  started : Bool := false
+  sys : Sys := {}
+  qc : List Res := []      -- pending ReadFrame results for the c2s reader (bytes sent by the client)
+  qs : List Res := []
+  failC : Bool := false    -- writes of the c2s writer (toward the server) fail
+  failS : Bool := false
+deriving Repr
+
+def init : St := {}
+
+def parseDir : String → Option Dir
+  | "c2s" => some .c2s
+  | "s2c" => some .s2c
+  | _ => none
+
+def parseRes : List String → Option Res
+  | "own" :: n :: _ => n.toNat?.map fun k => .frame (.own k)
+  | "peer" :: n :: _ => n.toNat?.map fun k => .frame (.peer k)
+  | "direct" :: "1" :: _ => some (.frame (.direct true))
+  | "direct" :: "0" :: _ => some (.frame (.direct false))
+  | "bad" :: _ => some (.frame .bad)
+  | "eof" :: _ => some .eof
+  | "err" :: _ => some .err
+  | _ => none
+
+def parseLabel : List String → Option Label
+  | ["rTake", d] => (parseDir d).map .rTake
+  | ["rWerr", d] => (parseDir d).map .rWerr
+  | ["rDone", d] => (parseDir d).map .rDone
+  | ["acquire", d] => (parseDir d).map .acquire
+  | ["push", d] => (parseDir d).map .push
+  | ["release", d] => (parseDir d).map .release
+  | ["handshake", d] => (parseDir d).map .handshake
+  | ["wSend", d, "1"] => (parseDir d).map (.wSend · true)
+  | ["wSend", d, "0"] => (parseDir d).map (.wSend · false)
+  | ["watchClosing"] => some .watchClosing
+  | ["watchDone"] => some .watchDone
+  | ["ret"] => some .ret
+  | ["rfClosed", d] => (parseDir d).map .rfClosed
+  | _ => none
+
+/-- Hand the next pending result to a blocked `ReadFrame` of direction `d`, if any. -/
+def flush1 (st : St) (d : Dir) : Option St :=
+  let q := match d with | .c2s => st.qc | .s2c => st.qs
+  match q with
+  | [] => none
+  | r :: rest =>
+    match step st.sys (.deliver d r) with
+    | some s' => some (match d with
+        | .c2s => { st with sys := s', qc := rest }
+        | .s2c => { st with sys := s', qs := rest })
+    | none => none
+
+def flush (st : St) : St :=
+  let st := (flush1 st .c2s).getD st
+  (flush1 st .s2c).getD st
+
+/-- The writer's connection write fails when the driver's socket says so. -/
+def adjust (st : St) : Label → Label
+  | .wSend .c2s true => if st.failC then .wSend .c2s false else .wSend .c2s true
+  | .wSend .s2c true => if st.failS then .wSend .s2c false else .wSend .s2c true
+  | l => l
+
+def settle : Nat → St → St
+  | 0, st => st
+  | fuel + 1, st =>
+    match flush1 st .c2s with
+    | some st' => settle fuel st'
+    | none => match flush1 st .s2c with
+      | some st' => settle fuel st'
+      | none => match pick st.sys with
+        | none => st
+        | some l => match step st.sys (adjust st l) with
+          | some s' => settle fuel { st with sys := s' }
+          | none => st
+
+def fuel : Nat := 4000000
+
+def count (p : Proc) (l : List Proc) : Nat := (l.filter (· == p)).length
+
+def obs (s : Sys) : String :=
+  let a := alive s
+  let names := List.replicate (count .main a) "main" ++ List.replicate (count .reader a) "reader" ++
+    List.replicate (count .readframe a) "readframe" ++ List.replicate (count .watcher a) "watcher" ++
+    List.replicate (count .writer a) "writer"
+  let left := if names.isEmpty then "-" else ",".intercalate names
+  s!"returned={if s.returned then 1 else 0} sc={if s.scClosed then "closed" else "open"} left={left}"
+
+def enqueue (st : St) (d : Dir) (r : Res) (n : Nat) : St :=
+  match d with
+  | .c2s => { st with qc := st.qc ++ List.replicate n r }
+  | .s2c => { st with qs := st.qs ++ List.replicate n r }
+
+def stepN (st : St) (n : Nat) (toks : List String) : St × String :=
+  match toks with
+  | ["start"] => if st.started then (st, "bad-op") else ({ st with started := true }, "ok")
+  | _ =>
+  if !st.started then (st, "bad-op") else
+  match toks with
+  | "env" :: "deliver" :: d :: rest =>
+    match parseDir d, parseRes rest with
+    | some d, some r => if rest.contains ":" then (enqueue st d r n, "ok") else (st, "bad-op")
+    | _, _ => (st, "bad-op")
+  | ["env", "closing"] => ({ st with sys := (step st.sys .closing).getD st.sys }, "ok")
+  | ["env", "stall", "s2c"] => ({ st with sys := (step st.sys (.stall .s2c)).getD st.sys }, "ok")
+  | ["env", "unstall", "s2c"] => ({ st with sys := (step st.sys (.unstall .s2c)).getD st.sys }, "ok")
+  | ["env", "failwrites", "s2c"] => ({ st with failS := true }, "ok")
+  | ["env", "failwrites", "c2s"] => ({ st with failC := true }, "ok")
+  | "hint" :: rest =>
+    match parseLabel rest with
+    | some l =>
+      let st := flush st
+      if l.isProc then
+        match step st.sys l with
+        | some s' => ({ st with sys := s' }, "ok")
+        | none => (st, "rejected")
+      else (st, "bad-op")
+    | none => (st, "bad-op")
+  | "settle" :: _ => (settle fuel st, "ok")
+  | ["probe"] => let st := settle fuel st; (st, obs st.sys)
+  | ["finish"] =>
+    let st := settle fuel st
+    let st := match step st.sys .callerClose with
+      | some s' => settle fuel { st with sys := s' }
+      | none => st
+    (st, obs st.sys)
+  | _ => (st, "bad-op")
+
+def step (st : St) (toks : List String) : St × String :=
+  match toks with
+  | "rep" :: n :: rest =>
+    match n.toNat? with
+    | some k => if k ≤ 100000 then stepN st k rest else (st, "bad-op")
+    | none => (st, "bad-op")
+  | _ => stepN st 1 toks
 
 end Martian.Drv.C10
